@@ -151,6 +151,11 @@ def make(d, route):
     """route: ('obj',) | ('xml', style, od, comments)"""
     if route[0] == "obj":
         return build(d)
+    if route[0] == "file":           # a document on disk, loaded as it is: ("file", path, prefix or "", root)
+        from space_packet_parser.xtce.definitions import XtcePacketDefinition
+        with warnings.catch_warnings():
+            warnings.simplefilter("ignore")
+            return XtcePacketDefinition.from_xtce(route[1], xtce_ns_prefix=route[2] or None, root_container_name=route[3])
     kw = {}
     if len(route) > 4 and route[4] == "rev":
         kw["corder"] = list(reversed(d["corder"]))        # descendants before ancestors, nested containers after their users
